@@ -7994,18 +7994,26 @@ fn rewrite_segment_records(
 ) -> Result<(), WalStoreError> {
     fs::create_dir_all(root)?;
     fs::create_dir_all(segments_dir(root))?;
-    for path in segment_paths(root)? {
-        fs::remove_file(path)?;
-    }
+    let replaced_paths = segment_paths(root)?;
     let path = segment_path(root, WalSegmentId::from_raw(1));
-    File::create(&path)?.sync_all()?;
+    // Build the replacement beside the segment and rename it into place, so a
+    // process death during the rewrite leaves the previous segment intact.
+    let temp = segments_dir(root).join(".segment-rewrite.ecwal.tmp");
+    File::create(&temp)?;
     for frame in frames {
-        append_segment_record(&path, DiskWalRecord::Frame(frame), false)?;
+        append_segment_record(&temp, DiskWalRecord::Frame(frame), false)?;
     }
     for commit in commits {
-        append_segment_record(&path, DiskWalRecord::Commit(commit), false)?;
+        append_segment_record(&temp, DiskWalRecord::Commit(commit), false)?;
     }
-    File::options().append(true).open(&path)?.sync_all()?;
+    File::options().append(true).open(&temp)?.sync_all()?;
+    fs::rename(&temp, &path)?;
+    for replaced in replaced_paths {
+        if replaced != path {
+            fs::remove_file(replaced)?;
+        }
+    }
+    sync_directory_store(&segments_dir(root))?;
     sync_directory_store(root)?;
     Ok(())
 }
